@@ -3,21 +3,29 @@ import random
 import common as C
 import gen as G
 import cont
+import decodeloop
 
-MODEL_TARGETS = ["model/Container.vo"]
+MODEL_TARGETS = ["model/Container.vo", "model/DecodeLoop.vo"]
 COQ_TARGETS = ["props/C17.vo", "proofs/ConstsTie.vo"]
 THEOREMS = [("C17", ["C17_truncation_general", "C17_truncation_prefix", "C17_sync", "C17_data_left_in_block", "C17_count_too_small",
-                     "C17_size_beyond_input", "C17_short_block", "C17_once", "C17_eof_sticky"])]
-PROOF_FILES = ["proofs/ContainerReadProofs.v", "proofs/ContainerProofs.v", "props/C17.v"]
+                     "C17_size_beyond_input", "C17_short_block", "C17_once", "C17_eof_sticky",
+                     "C17_compressed_count_lowered", "C17_compressed_trailing_garbage", "C17_compressed_cut_stream", "C17_compressed_output_genuine", "C17_compressed_values_genuine",
+                     "C17_snappy_count_lowered", "C17_snappy_bad_crc", "C17_snappy_short_block", "C17_decoder_model_damage",
+                     "C17_de_prefix_determinism", "C17_compressed_values_genuine_de", "C17_header_truncation", "C17_header_truncation_chunked",
+                     "C17_chunked_truncation_prefix", "C17_corruption_no_panic", "C17_reader_give_up_only", "C17_reader_give_up_any"])]
+PROOF_FILES = ["proofs/ContainerReadProofs.v", "proofs/ContainerProofs.v", "proofs/ContainerHeaderProofs.v", "proofs/ContainerChunkProofs.v", "proofs/DePrefixProofs.v",
+               "proofs/ContainerDamageProofs.v", "proofs/DecodeLoopProofs.v", "proofs/DecodeLoopDe.v", "proofs/DecodeLoopDePrefix.v", "props/C17.v"]
 TRUSTED_BASE = [
     "Coq 8.16.1 kernel; no axioms (Print Assumptions: closed)",
     "hand-written model/Container.v of reader/mod.rs + de/read/take.rs (NotInBlock / InBlock / Broken, per-block limit, sync check, error once then end of stream), null codec; tied by the correspondence run (item sequences of successive deserialize_next calls on damaged files, slice and chunked readers)",
-    "decompression (reader/decompression.rs), the end-of-compressed-block check and the snappy CRC are OUTSIDE the model: decided on the crate for all codecs",
+    "hand-written model/DecodeLoop.v of reader/decompression.rs (BufReader over an abstract streaming decoder over Take, the end-of-block check, the snappy block with its CRC), tied to the crate by hook H4 (hooks/H4.diff): every end-of-block check the crate makes on the damaged files is replayed through the extracted model (same decoder request, same decision); the decoders are ABSTRACT (DecodeLoop.stream_decoder_contract, validated on the reads the crate made; not proved of the libraries); values: De.de on the decompressed bytes (abstraction stated in DecodeLoop.v)",
 ]
 ASSUMPTIONS = [
+    "proved (DecodeLoopProofs.v) for every decoder meeting stream_decoder_contract, every BufReader capacity >= 1, chunking, read policy: count lowered => the first values then Err 'decompressed data left' (C17_compressed_count_lowered); bytes behind the stream inside the declared size => Err (C17_compressed_trailing_garbage; needs clause (iv), which multi-frame zstandard does not meet when the extra bytes are themselves a frame: observed and reported, the crate then reports the extra data or -- for a frame of no data -- accepts); declared size too small => Err provided the 16 bytes then found in place of the sync marker are not the marker (C17_compressed_cut_stream); in all cases the decoder's output is a prefix of the written data (C17_compressed_output_genuine: byte level; C17_compressed_values_genuine: every VALUE yielded was written, in order, for any value decoder that is prefix-deterministic -- vdec_prefix_det, which is NOT proved of De.de here: for the crate's deserializer the value-level claim is decided on the crate); snappy: count lowered, wrong CRC, size < 4 (C17_snappy_*)",
     "proved (slice reader, null codec): truncation at ANY offset of ANY byte string yields the same items as the longer input until it stops (C17_truncation_general), for written files a prefix of the written values then only error/end (C17_truncation_prefix); sync mismatch, data left in block, size beyond input, count too small are errors; an unrecoverable error is reported once, then end of stream (C17_once)",
     "'count larger than the contents' is an error only when the missing datums cannot be decoded from nothing: with a schema whose values are empty (null) any count is accepted by construction of the format (count_too_large_null_schema_accepted)",
-    "cuts inside the header, the chunked reader on damaged files and every compressed codec are decided on the crate: every truncation offset, single-byte corruptions of count / size / sync / CRC / payload, I/O errors",
+    "proved (ContainerDamageProofs.v, DePrefixProofs.v): a written file cut at ANY offset inside its header is refused with an error by the slice and the chunked reader (C17_header_truncation/_chunked); cut anywhere behind the header and read through the chunked reader (any plan, allocation cap >= file length): written metadata, a prefix of the written values, then at most one error and end of stream (C17_chunked_truncation_prefix); ARBITRARY bytes never make cr_open or any reader call panic (C17_corruption_no_panic); the datum decoder never depends on bytes behind what it consumed (C17_de_prefix_determinism), which gives value-level genuineness on damaged compressed blocks for the real value decoder (C17_compressed_values_genuine_de)",
+    "decided on the crate: the compression libraries themselves (contract validated per run), single-byte corruptions of count / size / sync / CRC / payload for value-level outcomes, I/O errors",
 ]
 
 def items_key(items, upto_first_err=True):
@@ -148,10 +156,18 @@ def run(ctx):
         km = ("open-err",) if m.get("open_err") else items_key(m.get("items", []))
         if ka != km:
             diffs.append({"impl_case": cases[i][:3000], "model_case": mlines[midx.index(i)][:3000], "impl": res[i][:500], "model": rm[:500]})
-    return {"evaluations": len(cases) + len(wl), "distinct_nontrivial": len(distinct),
+    dd = decodeloop.run_damaged(random.Random(ctx["seed"] * 7919 + 117), ctx["tier"])
+    violations.extend(dd["violations"])
+    diffs.extend(dd["diffs"])
+    samples = dd["samples"][:3] + samples
+    for k, v in dd["distribution"].items():
+        dist[("block-" + k.split("/")[0], k.split("/")[1])] += v
+    return {"evaluations": len(cases) + len(wl) + dd["evaluations"], "distinct_nontrivial": len(distinct) + len(dd["distinct"]), "notes": dd["notes"],
             "rule": "valid files (12 codec settings) x every truncation offset x single-byte corruption at every offset x object count "
                     "lowered/raised x I/O error at a read call; slice and chunked readers. Required: no panic/hang, only genuine values in order "
                     "for truncation / sync / count damage, sync and count damage reported as an error, end of stream after an I/O error; "
-                    "reader model vs crate on the null codec (items up to and including the first error)",
+                    "reader model vs crate on the null codec (items up to and including the first error); "
+                    "compressed blocks (hook H4): codecs {deflate default/1, bzip2, xz, zstandard, snappy} x payloads x damage {count -1/+1, size -1/-2/+1, 1 or 5 foreign bytes behind the stream inside the size, stream twice, snappy CRC flip / little-endian / size 3 / payload bit} x BufReader capacity {1,7,8192} x source {slice, 1, 7 bytes per fill_buf}: "
+                    "an error is reported, only genuine values before it, every end-of-block check replayed through the extracted model, decoder contract checked on the reads made",
             "samples": samples, "violations": violations, "model_diffs": diffs,
             "distribution": {"%s/%s" % k: v for k, v in sorted(dist.items())}}
